@@ -577,7 +577,29 @@ func (e *Engine) eventTerm(key string, args []Term) Term {
 	for _, s := range sorts {
 		sk = append(sk, s.String())
 	}
-	f := e.ctx.Func("ev:"+key+"/"+strings.Join(sk, ","), sorts, SEvent)
+	fname := "ev:" + key + "/" + strings.Join(sk, ",")
+	f := e.ctx.Func(fname, sorts, SEvent)
+	// events of different kinds are different events
+	if _, ok := e.evKinds[fname]; !ok {
+		id := len(e.evKinds) + 1
+		e.evKinds[fname] = id
+		kind := e.ctx.Func("evkind", []*Sort{SEvent}, SInt)
+		if len(sorts) == 0 {
+			e.ctx.Axiom("evkind:"+fname, []string{fname}, Eq(T("("+kind+" "+f+")", SInt), IntLit(int64(id))))
+		} else {
+			var vars []Term
+			var sb strings.Builder
+			sb.WriteString("(" + f)
+			for i, so := range sorts {
+				v := T(fmt.Sprintf("a%d!k", i), so)
+				vars = append(vars, v)
+				sb.WriteString(" " + v.S)
+			}
+			sb.WriteString(")")
+			app := T(sb.String(), SEvent)
+			e.ctx.Axiom("evkind:"+fname, []string{fname}, ForallPat(vars, [][]Term{{app}}, Eq(T("("+kind+" "+app.S+")", SInt), IntLit(int64(id)))))
+		}
+	}
 	if len(args) == 0 {
 		return T(f, SEvent)
 	}
